@@ -4,6 +4,7 @@ mod c04;
 mod c05;
 mod c06;
 mod c07;
+mod c08;
 mod fam;
 mod c10;
 mod c11;
@@ -46,6 +47,7 @@ fn main() {
             "C01" | "C02" | "C09" => c_docs::replay(prop, path),
             "C03" => c03::replay(path),
             "C14" => c14::replay(path),
+            "C08" => c08::replay(path),
             "C06" => c06::replay(path),
             "C07" | "C13" | "C17" => c07::replay(prop, path),
             "C16" => c16::replay(path),
@@ -80,6 +82,7 @@ fn main() {
         "C09" => c_docs::c09(tier),
         "C03" => c03::c03(tier),
         "C14" => c14::c14(tier),
+        "C08" => c08::c08(tier),
         "C06" => c06::c06(tier),
         "C07" => c07::c07(tier),
         "C13" => c07::c13(tier),
